@@ -218,3 +218,27 @@ Section SameSig.
   Lemma goals_hold_same s : p_goals P' = p_goals P -> goals_hold false P' s = goals_hold false P s.
   Proof. intros Hg. unfold goals_hold. rewrite mk_interp_same, Hg. reflexivity. Qed.
 End SameSig.
+
+(* two actions with different parameter lists / arguments that evaluate alike (grounding) *)
+Lemma spec_step_cong2 P P' s a a' args args' :
+  p_objs P' = p_objs P -> p_ifun P' = p_ifun P -> p_fluents P' = p_fluents P ->
+  let I := mk_interp P s (zip_params (a_params a) args) in
+  let I' := mk_interp P s (zip_params (a_params a') args') in
+  all_hold false I' (a_pre a') = all_hold false I (a_pre a) ->
+  fired false I' (a_effs a') = fired false I (a_effs a) ->
+  (forall acts, fired false I (a_effs a) = Some acts ->
+                invariants_ok false P' (spec_succ P s acts) = invariants_ok false P (spec_succ P s acts)) ->
+  spec_step false P' s a' args' = spec_step false P s a args.
+Proof.
+  intros Ho Hi Hf I I' Hpre Hfi Hinv. rewrite !spec_step_eq.
+  assert (EI : mk_interp P' s (zip_params (a_params a') args') = I').
+  { unfold I', mk_interp, objs_of. rewrite Ho, Hi. reflexivity. }
+  rewrite EI. fold I. rewrite Hpre, Hfi.
+  destruct (negb (all_hold false I (a_pre a))); [reflexivity|].
+  destruct (fired false I (a_effs a)) as [acts|] eqn:EF; [|reflexivity].
+  assert (E1 : spec_effects_ok P' s acts = spec_effects_ok P s acts).
+  { unfold spec_effects_ok, spec_fluent, is_bool_fluent. rewrite Hf. reflexivity. }
+  assert (E2 : spec_succ P' s acts = spec_succ P s acts).
+  { unfold spec_succ, spec_fluent, is_bool_fluent. rewrite Hf. reflexivity. }
+  rewrite E1, E2, (Hinv acts eq_refl). reflexivity.
+Qed.
